@@ -486,6 +486,9 @@ def string_flag(ctx, eff, core):
     hb = branches_on_call(f, r"DynamicFormatArgStore::has_string_related_type$")
     ok = bool(san) and bool(fmt) and bool(hb) and all(g.dominates(fmt, p) for p in san) and \
         not g.exists_path([g.entry_node], san, avoid_edges=[(b, t) for (b, t, c) in hb])
+    clr = npos(f, [c for c in f.calls(r"::clear$") if any(x["k"] == "MemberExpr" and x.get("mname") == "formatted_msg" for x in walk(c))])
+    ctx.ob("C04.R6e", "_populate_formatted_log_message:message-buffer-cleared-first", bool(clr) and bool(fmt) and all(g.dominates(clr, p) for p in fmt),
+           "the reused transit event's message buffer is cleared before the statement is formatted into it", fn=f)
     ctx.ob("C04.R6d", "_populate_formatted_log_message:sanitise-after-format", ok,
            "the sanitiser runs on the formatted message, after formatting, for statements that carry string-like data", fn=f)
 
